@@ -89,7 +89,7 @@ def context_guards(rep, prog):
         g = prog.by_key[k]
         if g.locals[0].get("path") != "std::result::Result" or g.argc < 6:
             continue
-        ef_ = edge_facts(g, cm.view_info)
+        ef_ = edge_facts(g, cm.view_info, interproc=False)    # the comparisons are in its own body
         cmp_params = {str(l) for fs_ in ef_.values() for op, l, r in fs_ if isinstance(l, tuple) and l[0] in ("len", "local")}
         if len(cmp_params) >= 5:
             fs.append(g)
